@@ -11,6 +11,8 @@ pub const OBF_CLASSES: &[&str] = &[
     "p.\u{1D49C}", "p.\u{FF21}", "p.Z", "\u{E000}", "\u{10000}", "\u{FFFD}x", "\u{7F}", "\u{80}",
     // names that differ only in the continuation byte of a two-byte character
     "x.\u{e0}", "x.\u{e8}", "x.\u{e9}", "x.\u{ea}", "x.\u{eb}", "x.\u{e9}a", "x.",
+    // spaces inside an obfuscated name (legal: it extends to the colon), precomposed vs decomposed é
+    "a b", "a\tb", " a", "a ", "e\u{301}", "\u{e9}", "A.a", "a.A",
 ];
 pub const ORIG_CLASSES: &[&str] = &[
     "com.example.Foo",
@@ -229,6 +231,13 @@ const NOISE: &[&str] = &[
     "x -> y: trailing",
     "a -> b:c -> d:",
     "#",
+    "#\u{a0}key\u{2003}:\u{3000}value\u{85}",
+    "#sourceFile",
+    "# sourceFile :x",
+    "#\tsourceFile:\ty",
+    "    +5:7:void x() -> y",
+    "    007:009:void x():0010 -> y",
+    "    1:1:java.util.List<java.lang.String> x(java.util.Map<a,b>):1 -> y",
     "# {\"id\":\"sourceFile\",\"fileName\":\"unterminated",
     "# {\"id\":\"com.android.tools.r8.mapping\",\"version\":\"2.2\"}",
 ];
